@@ -5,6 +5,7 @@ CONSTANTS
   Kind <- MCKind
   Order <- MCOrder
   MaxVer = 4
+  MaxLate = 2
   CloudKind = "std"
   Params = {"cloudP", "mix", "T"}
   D = 7
